@@ -18,6 +18,7 @@ mod syntax_sugar_traits;
 mod syntax_sugar_remover;
 
 pub use parser_logic::parse_definition;
+pub use syntax_sugar_traits::ContainsExpression;
 
 /// Verification hook: exposes the comment stripper to the external harness.
 #[cfg(feature = "verif")]
